@@ -5,6 +5,11 @@ import CookModel.Lemmas.Blocks
 import CookModel.Lemmas.ClosingFold
 import CookModel.Lemmas.ClosingStream
 import CookModel.Lemmas.CloseC03
+import CookModel.Lemmas.AstBuild
+import CookModel.Lemmas.ConsumersNoPanic
+import CookModel.Lemmas.InlineScan
+import CookModel.Props.C09
+import CookModel.Props.C04
 /-
   C03  No input makes a public entry point panic, overflow or hang.
 
@@ -533,5 +538,262 @@ theorem C03_blocks_in_bounds (cs : CharSpec) (off : Nat) (s : List Char) :
   have hpos := utf8Len_pos (lexFrom_nonempty cs off s u hmem)
   simp only [Tok.stop] at h ⊢
   omega
+
+
+/-! ### AST building (`build_ast`, model added by the audit: Syntax/Ast.lean) -/
+
+/-- **C03, `build_ast`.**  `build_ast` has one panic site, `panic!("Not text in text block")` when a
+    `Text` block is closed while a component sits in the item buffer.  On every `WellBracketed` event
+    stream (components only inside `Step` blocks, every `Start` clears the buffer) it is unreachable. -/
+theorem C03_build_ast_no_panic_of_events {α : Type} [Arith α] (evs : List (Ev α)) (hw : WellBracketed evs) :
+    (buildAst evs).panic = none := astBuild_no_panic evs hw
+
+/-- **C03, AST building from source, complete:** for every input, `CharSpec` and extension set,
+    `build_ast(PullParser::new(input, extensions))` reaches no panic site — neither one of the pull parser
+    (`C03_parse_events_no_panic`) nor the one of `build_ast` (the parser's stream is well bracketed,
+    `C03_parser_events_shape`). -/
+theorem C03_build_ast_no_panic {α : Type} [Arith α] (cs : CharSpec) (ext : Ext) (input : Str) :
+    (buildAstOfInput (α := α) cs ext input).panic = none :=
+  astBuild_input_no_panic cs ext input (C03_parse_events_no_panic cs ext input)
+
+/-! non-vacuity: the panic site of the `build_ast` model is reachable on a stream that is not well
+    bracketed (a component inside a text block) -/
+example : (buildAst (α := Rat) [.start .text,
+    .timer ⟨⟨some (Text.empty 0), none⟩, ⟨0, 0⟩⟩, .stop .text]).panic = some "Not text in text block" := rfl
+
+/-! ### the consumers of a parsed recipe: scale, convert, fit, group, list
+
+  Models: Num/Scale.lean, Num/Convert.lean, Num/Group.lean, Num/IngList.lean.  Their panic sites are the
+  values `ConvErr.panic _` (the same-quantity `assert_eq!` of `convert_f64`, `Unit::symbol`'s `expect`) and
+  `none` (`all_ingredients[i]`, the `expect` of `GroupedValue::add`).  In `scale`, `group_quantities` and
+  `GroupedQuantity::add` the code discards or re-routes the `Result` of an inner `fit` / `try_add`
+  (`let _ = q.fit(converter)`), and so does the model; a panic inside is nevertheless a panic of the
+  operation, hence the statements quantify over EVERY call of `convert_impl`, `fit`, `try_add`.
+  Over ℚ (`Arith Rat`), as all numeric theorems: the f64 instance of the same definitions is what the
+  differential runs compare, and f64 arithmetic itself cannot panic (no integer casts on this path). -/
+
+/-- the empty converter (`Converter::empty()`) satisfies the converter hypothesis … -/
+theorem C03_empty_converter_sound (table : List FracEntry) : (Converter.empty (α := Rat) table).Sound :=
+  ⟨fun q s u hu => by simp [Converter.empty, emptyBest, BestStore.conversions, BestConversions.unitsOf] at hu,
+   fun u v hu => by simp [Converter.empty] at hu,
+   fun u hu => by simp [Converter.empty] at hu,
+   fun u hu => by simp [Converter.empty] at hu,
+   fun u hu => by simp [Converter.empty] at hu⟩
+
+/-- … and so does the bundled one (`Converter::bundled()`, decided on the table generated from units.toml) -/
+theorem C03_bundled_converter_sound : (Converter.bundled Rat).Sound := C09_bundled_sound
+
+/-- **C03, the `assert!`s of `Number::new_approx`** (`accuracy ∈ [0, 1]`, `max_den ≤ 64`).  The model's `newApprox`
+    does not contain them: they are the precondition `newApproxPre`, and `Converter.wf` demands it of the default
+    configuration and of every fractions configuration the converter holds.  Every call the consumers make
+    (`try_fraction`, `fit_fraction`, the candidates and the range end of `fit_fraction`) passes
+    `converter.fractions_config(unit)`, which is one of those: the assertions hold at every call. -/
+theorem C03_new_approx_asserts_hold {c : Converter Rat} (hw : c.wf = true) (u : Unit Rat) :
+    newApproxPre (c.fractionsConfig u).accuracy (c.fractionsConfig u).maxDen = true :=
+  consumers_config_pre hw u
+
+/-- the empty and the bundled converter are well-formed in that sense -/
+theorem C03_std_converters_wf (table : List FracEntry) :
+    (Converter.empty (α := Rat) table).wf = true ∧ (Converter.bundled Rat).wf = true :=
+  ⟨by
+    have h : cfgPre (defaultCfg (α := Rat)) = true := by decide +kernel
+    simp [Converter.wf, bestListsOK, Converter.empty, emptyBest, BestStore.lists, BestConversions.unitsOf,
+      Fractions.cfgs, PhysQ.all, h], C09_bundled_wf⟩
+
+/-- **C03, single quantities.**  For a sound converter no call of `ScaledQuantity::convert` (to a system,
+    within the own system, or to a unit of the converter / a unit key), `ScaledQuantity::fit`,
+    `ScaledQuantity::try_add` or `GroupedQuantity::fit`, on ANY quantity — parsed or not, text, range,
+    unknown unit, zero, negative — returns a panic value: the `assert_eq!` on physical quantities in
+    `convert_f64` and the `expect` of `Unit::symbol` are unreachable.  This covers the calls whose result
+    the callers discard (`scale`'s and `group_quantities`' `let _ = ….fit(converter)`) or re-route
+    (`GroupedQuantity::add` pushing to `other` when `try_add` fails). -/
+theorem C03_convert_fit_add_no_panic {c : Converter Rat} (hc : c.Sound) (s : PanicSite) :
+    (∀ q to, (∀ x, to = .unit (.unit x) → x ∈ c.allUnits) → (convertImpl c q to).2 ≠ .error (.panic s)) ∧
+    (∀ q, (fit c q).2 ≠ .error (.panic s)) ∧
+    (∀ l r x, qTryAdd c l r = .error x → x ≠ .convert (.panic s)) ∧
+    (∀ g, (GroupedQuantity.fit c g).2 ≠ .error (.panic s)) :=
+  ⟨fun q to hto => consumers_convertImpl_no_panic hc q to hto s,
+   fun q => consumers_fit_no_panic hc q s,
+   fun l r => consumers_tryAdd_no_panic hc l r s,
+   fun g => consumers_groupFit_no_panic hc g s⟩
+
+/-- **C03, `ScaledRecipe::convert`.**  For a sound converter, any recipe (parsed or not) and either target
+    system, every error the recipe-wide conversion collects is a `ConvertError`, never a panic. -/
+theorem C03_recipe_convert_no_panic {c : Converter Rat} (hc : c.Sound) (to : System) (r : ScaledRecipe Rat) :
+    ∀ e ∈ (recipeConvert c to r).2, ∀ s, e ≠ .panic s := consumers_recipeConvert_no_panic hc to r
+
+/-- **C03, grouping and listing a parsed recipe.**  Let `col` be the recipe `parse` returns for any input
+    and environment, `c` a sound converter, `f` any factor (`scale`, `scale_to_servings`: `f = target/base`)
+    and `to` a system.  Then for the scaled recipe, for the default-scaled recipe, and for each of them
+    after `convert(to)`:
+    * `group_ingredients` returns (no `all_ingredients[i]` out of range in `all_quantities`),
+    * `IngredientList::add_recipe` into any list returns, for every iteration order of the hash maps,
+    * `group_cookware` / `Cookware::group_amounts` returns for every cookware item: no index out of range and
+      the `expect("non text to non text value add error")` of `GroupedValue::add` never fires.
+    The inner `fit` / `try_add` calls cannot panic by `C03_convert_fit_add_no_panic`.  Uses the C06 fact
+    that every `referenced_from` index of a returned recipe addresses an existing component, and that
+    scaling and conversion leave relations and table lengths alone. -/
+theorem C03_parsed_recipe_group_list_no_panic (env : Env) (input : Str) (col : Col Rat)
+    (h : (parseRecipe (α := Rat) env input).output = some col)
+    (c : Converter Rat) (f : Rat) (to : System) :
+    ∀ r ∈ [(recipeScale c col.recipe f).1, recipeDefaultScale col.recipe,
+           (recipeConvert c to (recipeScale c col.recipe f).1).1,
+           (recipeConvert c to (recipeDefaultScale col.recipe)).1],
+      (∃ es, groupIngredients c r = some es) ∧
+      (∀ (ord : MapOrder Rat) (m : IngredientList Rat), ∃ m', addRecipe ord c m r = some m') ∧
+      (∀ k ∈ r.cookware, ∃ g, groupAmounts r.cookware k = some g) := by
+  obtain ⟨hi, hcw⟩ := col_refs_in_range env input col h
+  have key : ∀ r : ScaledRecipe Rat,
+      r.ingredients.map (·.relation) = col.recipe.ingredients.map (·.relation) →
+      r.cookware.map (·.relation) = col.recipe.cookware.map (·.relation) →
+      (∃ es, groupIngredients c r = some es) ∧
+      (∀ (ord : MapOrder Rat) (m : IngredientList Rat), ∃ m', addRecipe ord c m r = some m') ∧
+      (∀ k ∈ r.cookware, ∃ g, groupAmounts r.cookware k = some g) := by
+    intro r h1 h2
+    have hlen : r.ingredients.length = col.recipe.ingredients.length := by
+      simpa using congrArg List.length h1
+    have hr : RefsInRange r.ingredients := by
+      intro i hi' j hj
+      obtain ⟨k, hk, rfl⟩ := List.mem_iff_getElem.mp hi'
+      have hk' : k < col.recipe.ingredients.length := hlen ▸ hk
+      have e : r.ingredients[k].relation = col.recipe.ingredients[k].relation := by
+        have := congrArg (fun l => l[k]?) h1
+        simpa [hk, hk'] using this
+      rw [e] at hj
+      rw [hlen]
+      exact hi _ (List.getElem_mem hk') j hj
+    exact ⟨consumers_group_total r hr, fun ord m => addRecipe_total ord m r hr,
+      consumers_groupAmounts_total r.cookware (cwRefsInRange_of_relations h2 hcw)⟩
+  have hs := recipeScale_relations c col.recipe f
+  have hd := recipeDefaultScale_relations col.recipe
+  intro r hr
+  simp only [List.mem_cons, List.mem_nil_iff, or_false] at hr
+  rcases hr with rfl | rfl | rfl | rfl
+  · exact key _ hs.1 hs.2
+  · exact key _ hd.1 hd.2
+  · have hc := recipeConvert_relations c to (recipeScale c col.recipe f).1
+    exact key _ (hc.1.trans hs.1) (by rw [hc.2]; exact hs.2)
+  · have hc := recipeConvert_relations c to (recipeDefaultScale col.recipe)
+    exact key _ (hc.1.trans hd.1) (by rw [hc.2]; exact hd.2)
+
+/-- **C03, report rendering (the modelled part).**  `SourceReport::write` itself (codesnake, yansi,
+    unicode-width) is not modelled.  What the model states is the precondition under which the renderer's
+    only partial operations — slicing the source at label offsets — are legal: every label of every
+    diagnostic of `parse` and `parse_metadata` can be sliced out of the input (`&input[start..end]`
+    succeeds: both ends on character boundaries, `start ≤ end ≤ len`), and sorting the labels (which
+    `write_report` does first) does not change that.  Partial: the rendering code after this precondition
+    (line index, width arithmetic `max(w, 1) - sub`, colour cycling) is exercised by the runs only. -/
+theorem C03_report_renders_partial (env : Env) (input : Str) :
+    (∀ d ∈ (parseRecipe (α := Rat) env input).diags.toList, ∀ labels : List Span, labels.Perm d.labels →
+      ∀ l ∈ labels, (sliceBytes input l.start l.stop).isSome = true) ∧
+    (∀ d ∈ (parseMetadata (α := Rat) env input).diags.toList, ∀ labels : List Span, labels.Perm d.labels →
+      ∀ l ∈ labels, (sliceBytes input l.start l.stop).isSome = true) :=
+  C04_report_labels_sliceable env input
+
+/-- **C03 beyond `parse` / `parse_metadata`: every other entry point and consumer the model contains.**
+    For every environment and input: the raw event stream (`PullParser` collected), the metadata-only
+    stream and `build_ast` reach no panic site; the labels of both reports satisfy the renderer's slicing
+    precondition; and for every sound, well-formed converter (the empty and the bundled one are), every factor and
+    target system, scaling, default scaling, converting, grouping ingredients and cookware and listing
+    the parsed recipe return without reaching a panic site.  Not in the model, hence tested only: the
+    renderer after its precondition, `serde` (the encoders of Side/Serde.lean are total functions without
+    panic sites) and the `Metadata` accessors (Side/StdMeta.lean: total functions over checked `u32`
+    arithmetic, after the repair; C13 proves their values). -/
+def C03_consumers_statement : Prop :=
+  ∀ (env : Env) (input : Str),
+    (pullEvents (α := Rat) env.cs env.ext input).2 = none ∧
+    (pullMetaEvents (α := Rat) env.cs env.ext input).2 = none ∧
+    (buildAstOfInput (α := Rat) env.cs env.ext input).panic = none ∧
+    (∀ d ∈ (parseRecipe (α := Rat) env input).diags.toList, ∀ l ∈ d.labels,
+      (sliceBytes input l.start l.stop).isSome = true) ∧
+    (∀ d ∈ (parseMetadata (α := Rat) env input).diags.toList, ∀ l ∈ d.labels,
+      (sliceBytes input l.start l.stop).isSome = true) ∧
+    ∀ (c : Converter Rat), c.Sound → c.wf = true →
+      (∀ u, newApproxPre (c.fractionsConfig u).accuracy (c.fractionsConfig u).maxDen = true) ∧
+      (∀ s q, (fit c q).2 ≠ .error (.panic s)) ∧
+      (∀ s l r x, qTryAdd c l r = .error x → x ≠ .convert (.panic s)) ∧
+      (∀ s g, (GroupedQuantity.fit c g).2 ≠ .error (.panic s)) ∧
+      ∀ (col : Col Rat), (parseRecipe (α := Rat) env input).output = some col → ∀ (f : Rat) (to : System),
+        (∀ r ∈ [(recipeScale c col.recipe f).1, recipeDefaultScale col.recipe], ∀ e ∈ (recipeConvert c to r).2,
+          ∀ s, e ≠ .panic s) ∧
+        ∀ r ∈ [(recipeScale c col.recipe f).1, recipeDefaultScale col.recipe,
+               (recipeConvert c to (recipeScale c col.recipe f).1).1,
+               (recipeConvert c to (recipeDefaultScale col.recipe)).1],
+          (∃ es, groupIngredients c r = some es) ∧
+          (∀ (ord : MapOrder Rat) (m : IngredientList Rat), ∃ m', addRecipe ord c m r = some m') ∧
+          (∀ k ∈ r.cookware, ∃ g, groupAmounts r.cookware k = some g)
+
+theorem C03_consumers_hold : C03_consumers_statement := by
+  intro env input
+  refine ⟨C03_parse_events_no_panic env.cs env.ext input, C03_parse_meta_events_no_panic env.cs env.ext input,
+    C03_build_ast_no_panic env.cs env.ext input,
+    fun d hd l hl => (C03_report_renders_partial env input).1 d hd d.labels (List.Perm.refl _) l hl,
+    fun d hd l hl => (C03_report_renders_partial env input).2 d hd d.labels (List.Perm.refl _) l hl, ?_⟩
+  intro c hc hw
+  refine ⟨consumers_config_pre hw, fun s q => consumers_fit_no_panic hc q s, fun s l r => consumers_tryAdd_no_panic hc l r s,
+    fun s g => consumers_groupFit_no_panic hc g s, ?_⟩
+  intro col hcol f to
+  exact ⟨fun r _ => consumers_recipeConvert_no_panic hc to r,
+    C03_parsed_recipe_group_list_no_panic env input col hcol c f to⟩
+
+/-! non-vacuity: the hypothesis `Sound` is satisfiable (both converters above), and the panic value the
+    theorems exclude is producible by a converter that is not sound — a best list holding a unit of
+    another physical quantity makes `convert_f64`'s assertion fire in the model -/
+example : convertF64 (1 : Rat) ⟨0, [], [], [], 1, 0, .mass, none⟩ ⟨1, [], [], [], 1, 0, .volume, none⟩ = none := by
+  decide
+
+
+/-! ### the inline-quantity scan of the analysis terminates (`find_inline_quantity`, INLINE_QUANTITIES)
+
+  The code guards its `while let` with `debug_assert!(prev < i)` ("to be sure no infinite loop").  The model runs
+  both loops (the scan for a candidate, and the loop that splits a step text at the quantities found) on fuel and
+  returns silently when the fuel is exhausted; the panic flag of `C03_statement` therefore does not see this site,
+  and these theorems are what excludes it.  Side condition on the character table: an ASCII digit is not white
+  space for `char::is_whitespace` (`DigitsNotWs`; true of Unicode, where White_Space contains no digit). -/
+
+/-- **C03, progress and termination of the inline-quantity scan.**  For every environment whose table does not
+    classify an ASCII digit as white space:
+    1. every iteration of `find_inline_quantity`'s loop hands on strictly less text than it was given, whether it
+       hits or the candidate fails (`number.parse()` fails or the unit is unknown) — the strict increase of `i`
+       that `debug_assert!(prev < i)` demands;
+    2. a hit leaves strictly less text (`after`) than was scanned, so the splitting loop makes progress;
+    3. neither loop ever stops because its fuel ran out: any fuel above the length of the text gives the result
+       of the fuel the model uses;
+    4. with that fuel both functions satisfy their fuel-free recursion equations. -/
+theorem C03_inline_scan_terminates {α : Type} [Arith α] (env : Env) (hd : DigitsNotWs env.cs) :
+    (∀ (pre rest a : Str), (inlineStep (α := α) env pre rest).after = some a → a.length < rest.length) ∧
+    (∀ (fuel : Nat) (pre rest : Str) (hit : InlineHit α),
+      findInlineQuantity env fuel pre rest = some hit → hit.after.length < rest.length) ∧
+    (∀ (f : Nat) (pre rest : Str), rest.length < f →
+      findInlineQuantity (α := α) env f pre rest = findInlineQuantity env (rest.length + 1) pre rest) ∧
+    (∀ (f : Nat) (hay : Str) (items : List Item) (iq : Array (Quantity (Value α))), hay.length < f →
+      inlineLoop env f hay items iq = inlineLoop env (hay.length + 1) hay items iq) ∧
+    (∀ (pre rest : Str), findInlineQuantity (α := α) env (rest.length + 1) pre rest =
+      match inlineStep (α := α) env pre rest with
+      | .stop => none
+      | .hit h => some h
+      | .retry pre' after => findInlineQuantity env (after.length + 1) pre' after) ∧
+    (∀ (hay : Str) (items : List Item) (iq : Array (Quantity (Value α))),
+      inlineLoop env (hay.length + 1) hay items iq =
+        match findInlineQuantity (α := α) env (hay.length + 1) [] hay with
+        | some hit =>
+          inlineLoop env (hit.after.length + 1) hit.after
+            ((if hit.before.isEmpty then items else items ++ [.text hit.before]) ++ [.inlineQuantity iq.size])
+            (iq.push hit.q)
+        | none => (if hay.isEmpty then items else items ++ [.text hay], iq)) :=
+  ⟨fun pre rest => inlineStep_progress env hd pre rest,
+   inlineScan_progress env hd,
+   fun f pre rest h => inlineScan_fuel env hd f _ pre rest h (Nat.lt_succ_self _),
+   fun f hay items iq h => inlineLoop_fuel env hd f _ hay items iq h (Nat.lt_succ_self _),
+   inlineScan_unfold env hd, inlineLoop_unfold env hd⟩
+
+/-! non-vacuity: the side condition holds of the example table, and the scan does hit -/
+example : DigitsNotWs toyCharSpec := by
+  intro c h
+  simp only [isAsciiDigitC, Bool.and_eq_true, decide_eq_true_eq] at h
+  have h1 : 48 ≤ c.val := h.1
+  have h2 : c.val ≤ 57 := h.2
+  simp only [toyCharSpec, Char.isWhitespace, Bool.or_eq_false_iff, decide_eq_false_iff_not]
+  refine ⟨⟨⟨?_, ?_⟩, ?_⟩, ?_⟩ <;> intro e <;> subst e <;> revert h1 h2 <;> decide
 
 end Cook
